@@ -956,6 +956,22 @@ func rulePPostNonEmpty(c *engine.Context) *report.Rule {
 						how = "result of a step on the same sink"
 						return true
 					}
+					// a package helper every return of which converts a concrete error value (never nil)
+					if sc := x.Call.StaticCallee(); sc != nil && p.InPkg(sc) && sc.Blocks != nil && !inFam[sc] {
+						allFresh, n := true, 0
+						for _, bb := range sc.Blocks {
+							if ret, isRet := bb.Instrs[len(bb.Instrs)-1].(*ssa.Return); isRet && len(ret.Results) == 1 {
+								n++
+								if _, isMI := ret.Results[0].(*ssa.MakeInterface); !isMI {
+									allFresh = false
+								}
+							}
+						}
+						if allFresh && n > 0 {
+							how = "a helper that always returns a fresh error value"
+							return true
+						}
+					}
 				case *ssa.Const:
 					if x.IsNil() {
 						// sink must be known non-empty here
